@@ -1,0 +1,28 @@
+//! Verification hooks (cargo feature `verif`, off by default): re-exports that let an external
+//! harness drive the request dispatch path (`on_request_handler` -> `ServerContext::task` ->
+//! handler) in-process over an in-memory connection, and a recorder for the input of
+//! `SemanticBuilder::build`. Adds no behaviour.
+pub use crate::context::{ServerContext, ServerContextSnapshot};
+pub use crate::handlers::{on_notification_handler, on_request_handler, server_capabilities};
+pub use lsp_server;
+pub use tokio_util::sync::CancellationToken;
+
+use std::sync::Mutex;
+
+static SEMANTIC_ENTRIES: Mutex<Vec<Vec<[u32; 5]>>> = Mutex::new(Vec::new());
+
+/// called by `SemanticBuilder::build` with its flattened, not yet sorted entries
+/// `[line, col, length, type, modifiers]`
+pub fn record_semantic_entries(entries: Vec<[u32; 5]>) {
+    if let Ok(mut all) = SEMANTIC_ENTRIES.lock() {
+        all.push(entries);
+    }
+}
+
+/// entry lists recorded since the last call, one per `SemanticBuilder::build`
+pub fn take_semantic_entries() -> Vec<Vec<[u32; 5]>> {
+    match SEMANTIC_ENTRIES.lock() {
+        Ok(mut all) => std::mem::take(&mut *all),
+        Err(_) => Vec::new(),
+    }
+}
